@@ -99,7 +99,18 @@ fn main() {
         return;
     }
     let thorough = args.get(2).map(|s| s == "thorough").unwrap_or(false);
-    let probes: Vec<Value> = families::run_family(&args[1], thorough);
+    // an honest step of a family's setup that panics or refuses on the real code (unwrap in the driver) must not kill the run
+    // silently: completeness families report it as a failed honest operation, the others as a driver error (undecided)
+    let fam = args[1].clone();
+    let probes: Vec<Value> = match panic::catch_unwind(|| families::run_family(&fam, thorough)) {
+        Ok(p) => p,
+        Err(e) => {
+            let msg = if let Some(s) = e.downcast_ref::<&str>() { s.to_string() } else if let Some(s) = e.downcast_ref::<String>() { s.clone() } else { "?".to_string() };
+            let positive = ["sig_complete", "proof_complete", "blind_complete", "update_history", "fresh", "generators", "history", "limits"].contains(&fam.as_str());
+            vec![json!({"id": format!("{}-honest-setup-step", fam), "call": "honest operation in the family's setup", "inputs": [],
+                "outcome": format!("panic:{}", msg.chars().take(200).collect::<String>()), "tags": [if positive { "expect-ok" } else { "driver-error" }]})]
+        }
+    };
     println!("{}", json!({"family": args[1], "probes": probes}));
 }
 
